@@ -257,6 +257,8 @@ def _run_property(prop_name, tier, seed, replay, verbose):
             for c in clauses:
                 hist[c] = hist.get(c, 0) + 1
         log('clause histogram over %d rejected records: %s' % (len(new), sorted(hist.items(), key=lambda x: -x[1])[:30]))
+        for note in jr.get('notes', [])[:8]:
+            log('judge note: ' + note[:600])
         for rid, clauses, fp in new[:10]:
             log('rejected record %d clauses=%s fingerprint=%s' % (rid, clauses, fp))
         print('VIOLATION property=%s replay=%s' % (pid, path), flush=True)
